@@ -55,7 +55,7 @@ func (e *Engine) Load(patterns []string) error {
 		Mode:       packages.LoadSyntax,
 		Dir:        e.repo,
 		BuildFlags: []string{"-tags=verif"},
-		Env:        append(os.Environ(), "GOFLAGS=-mod=mod", "GOPROXY=off", "GOTOOLCHAIN=local"),
+		Env:        goEnv(),
 	}
 	pkgs, err := packages.Load(cfg, patterns...)
 	if err != nil {
@@ -507,3 +507,20 @@ func (e *Engine) funcTypeContract(cc *ssa.CallCommon) *Contract {
 }
 
 var ghostMapSorts = map[string]string{}
+
+// goEnv: environment for `go list` (offline, the repository's own toolchain first on PATH).
+func goEnv() []string {
+	tc := "/root/go/pkg/mod/golang.org/toolchain@v0.0.1-go1.25.8.linux-amd64/bin"
+	path := os.Getenv("PATH")
+	if _, err := os.Stat(tc + "/go"); err == nil && !strings.HasPrefix(path, tc) {
+		path = tc + ":" + path
+	}
+	var env []string
+	for _, kv := range os.Environ() {
+		if strings.HasPrefix(kv, "PATH=") || strings.HasPrefix(kv, "GOSUMDB=") || strings.HasPrefix(kv, "GOFLAGS=") || strings.HasPrefix(kv, "GOPROXY=") || strings.HasPrefix(kv, "GOTOOLCHAIN=") {
+			continue
+		}
+		env = append(env, kv)
+	}
+	return append(env, "PATH="+path, "GOFLAGS=-mod=mod", "GOPROXY=off", "GOTOOLCHAIN=local")
+}
